@@ -78,6 +78,7 @@ type op struct {
 	agent  uint32
 	class  byte
 	viaOp  bool // enqueue through the operator path (DispatchEvent) instead of AddJobToQueue
+	withCB bool // the check-in also carries a callback behind the GET_JOB (as PackageTransmitAll sends it)
 	name   string
 }
 
@@ -92,6 +93,7 @@ func alphabet(thorough bool) []op {
 		{kind: "checkin-nojobs", agent: idD, name: "callback-only(D)"},
 		{kind: "enq", agent: idP, class: 'S', name: "enq(P,S)"},
 		{kind: "enq", agent: idD, class: 'S', viaOp: true, name: "operator-sleep(D)"},
+		{kind: "checkin", agent: idD, withCB: true, name: "checkin+pending-output(D)"},
 	}
 	return a
 }
@@ -197,7 +199,12 @@ func (w *world) apply(o op) (string, string) {
 			}
 		} else {
 			k := keyOf(owner)
-			r, tasks, err := w.ts.CheckIn(owner, k)
+			var subs []demonwire.Sub
+			if o.withCB {
+				// pending output of the agent rides behind the GET_JOB in the same request
+				subs = append(subs, demonwire.Sub{Cmd: 0x5a5a, ReqID: 0xdead, Body: []byte{1, 2, 3, 4}})
+			}
+			r, tasks, err := w.ts.CheckIn(owner, k, subs...)
 			if r.Panic != nil {
 				return fmt.Sprintf("panic: %v @ %s", r.Panic, r.Stack), "panic"
 			}
